@@ -86,6 +86,37 @@ MUTATIONS = {
         old="        render_method = (method or self._render_method).lower()",
         new="        render_method = (self._render_method or method).lower()",
     ),
+    # ---- seeded/C20-t1: data sized for the effective method, transmitted with the override ----
+    "c20-kitty-size-from-effective-method": dict(
+        file="image/kitty.py",
+        old="""            self._get_minimal_render_size()
+            if render_method == WHOLE
+            else self._get_render_size()
+        )
+
+        frame_img = img if frame else None""",
+        new="""            self._get_minimal_render_size()
+            if self._render_method == WHOLE
+            else self._get_render_size()
+        )
+
+        frame_img = img if frame else None""",
+    ),
+    "c20-iterm2-size-from-effective-method": dict(
+        file="image/iterm2.py",
+        old="""            self._get_minimal_render_size()
+            if render_method == WHOLE
+            else self._get_render_size()
+        )
+
+        if (  # Read directly from file""",
+        new="""            self._get_minimal_render_size()
+            if self._render_method == WHOLE
+            else self._get_render_size()
+        )
+
+        if (  # Read directly from file""",
+    ),
     # ---- own ------------------------------------------------------------------------------
     "c20-instance-unset-writes-default": dict(
         file="image/common.py",
@@ -156,6 +187,8 @@ def apply(mid: str, edits) -> Path:
     for e in edits:
         f = root / "src" / "term_image" / e["file"]
         text = f.read_text()
+        if e is F2_FIX and e["old"] not in text:
+            continue  # /repo already carries the F2 repair (872f437)
         if text.count(e["old"]) != 1:
             raise SystemExit(f"{mid}: pattern occurs {text.count(e['old'])} times in {e['file']}")
         f.write_text(text.replace(e["old"], e["new"]))
